@@ -89,7 +89,7 @@ class EachScheduling:
             self.node2pending[node] = []
             if len(self.node2collection) >= self.numnodes:
                 self.collection_is_completed = True
-        elif self._removed2pending:
+        else:
             for deadnode in self._removed2pending:
                 if deadnode.gateway.spec == node.gateway.spec:
                     dead_collection = self.node2collection[deadnode]
@@ -101,10 +101,14 @@ class EachScheduling:
                             node.gateway.id,
                         )
                         self.log(msg)
-                        return
+                        break
                     pending = self._removed2pending.pop(deadnode)
                     self.node2pending[node] = pending
-                    break
+                    self.node2collection[node] = dead_collection
+                    return
+            # A late node which takes over nothing must not run everything again.
+            self._started.append(node)
+            node.shutdown()
 
     def mark_test_complete(
         self, node: WorkerController, item_index: int, duration: float = 0
@@ -142,6 +146,9 @@ class EachScheduling:
         assert self.collection_is_completed
         for node, pending in self.node2pending.items():
             if node in self._started:
+                continue
+            if node not in self.node2collection:
+                # a late node which has not reported its collection yet
                 continue
             if not pending:
                 pending[:] = range(len(self.node2collection[node]))
